@@ -13,11 +13,14 @@ SPEC = dict(
         "exact for |n| <= 2^53), C31_rows (accepted => exactly one row per data record, header and exactly skip_rows records excluded), "
         "C31_rows_once / C31_rows_hour (every buffered row is in exactly one hour file: count equality = multiset equality), "
         "C31_all_or_nothing(+_parquet) + C31_bad_time_rejects + C31_policy_tied (any input-caused failure stores nothing). "
-        "The property is FALSE of the unchanged tree in three clauses; each has a Lean witness, a _partial theorem with an explicit "
-        "carve-out and a harness monitor: silent int64 wrap of epoch_s/epoch_ms/TIMESTAMP(ms) times (C31_time_int_witness, "
-        "C31_time_arrow_witness); lossy values in accepted files (C31_infer_float_witness: integers > 2^53 in a column demoted to float "
-        "and integers beyond int64; C31_extra_fields_witness; C31_underscore_witness; C31_uint64_witness); partial import left by a "
-        "storage write fault in a multi-hour flush (C31_flush_fault_witness). "
+        "After the /repo repairs 4d7fee9, 8033d9e, 273e2e1, d44fdfa, 306d476, 83c5101 the value clause holds at FULL strength for the "
+        "modelled classes: C31_infer_lossless_float (a column is float only if every integer cell is exactly a float64), "
+        "C31_no_cell_dropped, C31_no_column_dropped, C31_uint64_exact, tied to the source by C31_repairs_tied (regenerated guard facts); the "
+        "former witnesses are kept as HISTORY theorems (C31_infer_big_int_stays_text, C31_long_row_rejected, C31_underscore_rejected, "
+        "C31_uint64_rejected). STILL FALSE of the current tree, each with a Lean witness / explicit carve-out and an armed monitor: silent "
+        "int64 wrap of epoch_s/epoch_ms/TIMESTAMP(ms) times (C31_time_int_witness, C31_time_arrow_witness; carve-out: product fits int64); "
+        "partial import left by a storage write fault in a multi-hour flush (C31_flush_fault_witness; outside the quantifier 'inputs'); and, "
+        "outside the model, CRLF inside quoted CSV fields (encoding/csv) and DECIMAL128 -> float64. "
         "VALIDATED, not proved: the model itself is diffed against the real functions (function level: intTimeToMicros, "
         "autoIntEpochToMicros, arrowTimestampToMicros, inferAndConvertColumn, isBoolLiteral, stringsToTimeMicros, validateImportHeader, "
         "strconv.ParseInt, float64(int64), ParseFloat on integer literals) and against the REAL endpoints POST /api/v1/import/{csv,parquet} "
@@ -26,7 +29,7 @@ SPEC = dict(
         "non-integer literals, float arithmetic of fractional epochs, time.Parse layouts, Decimal128.ToFloat64 - their results enter the "
         "model as per-cell oracles; the end-to-end monitors check them against the generator's ground truth instead."
     ),
-    level_note="proof (partial): float text conversion, CSV tokenisation and Parquet decoding are parameters; three clauses hold only under stated carve-outs (witness theorems + monitors)",
+    level_note="proof (partial): float text conversion, CSV tokenisation and Parquet decoding are parameters; the time clause (explicit units) and the all-or-nothing clause (storage faults) hold only under stated carve-outs (witness theorems + monitors)",
     technique="Lean 4 proofs (omega over wrap64, digit-string induction, counting) over an executable model; regenerated conversion tables + error policy; differential correspondence at function level and through the real import endpoints with stored-row read-back",
     factgen=True,
     hooks={"internal/api": "go/hooks/c31_api"},
